@@ -11,7 +11,8 @@ PROP = "C04"
 
 
 def contracts():
-    return [c for c in _c05.contracts() if c.name != "as_uninitialized.override_initialization"]
+    from contracts import c03 as _c03
+    return [c for c in _c05.contracts() if c.name != "as_uninitialized.override_initialization"] + [_c03.call_watcher_contract()]
 
 
 ASSUMPTIONS = _c05.ASSUMPTIONS
